@@ -7,6 +7,8 @@ import (
 	"math"
 	"math/big"
 	"strconv"
+	"strings"
+	"sync"
 
 	"symx/sym"
 )
@@ -495,6 +497,56 @@ func extFormatInt(fr *frame, a []value) value {
 // pfval_L of the L bytes (congruence: equal strings parse equally), with ground facts for a
 // table of concrete strings computed natively, and refined by CEGAR at violation time.
 var pfTable = []string{"", "0", "1", "-1", "+1", ".", "-", "+", "e", "1e", "1e1", "1.", ".1", "-.", "0x", "0x1", "0x1p", "0x1p1", "1_0", "_", "nan", "NaN", "NAN", "inf", "Inf", "INF", "+inf", "-inf", "+Inf", "-Inf", "1e9", "9e9", "1e999", "-1e999", "infinity", "Infinity", "+infinity", "0.5", "-0", "00", "1 ", " 1", "1\n", "0b1", "0o7", "1e+", "1e-", "1e-9", "١"}
+
+var pfCandCache = map[int][]string{}
+var pfCandMu sync.Mutex
+
+// pfCandidates returns concrete strings of length L to which counterexample search is first
+// restricted: every string of length <= 2 over the float alphabet that the real ParseFloat
+// accepts, plus the curated table.
+func pfCandidates(L int) []string {
+	pfCandMu.Lock()
+	defer pfCandMu.Unlock()
+	if c, ok := pfCandCache[L]; ok {
+		return c
+	}
+	var out []string
+	seen := map[string]bool{}
+	for _, s := range pfTable {
+		if len(s) == L && !seen[s] {
+			seen[s] = true
+			out = append(out, s)
+		}
+	}
+	const alpha = "0123456789+-.eEinfaNIxp_ "
+	if L == 1 || L == 2 {
+		var rec func(prefix string)
+		rec = func(prefix string) {
+			if len(prefix) == L {
+				if _, err := strconv.ParseFloat(prefix, 64); err == nil && !seen[prefix] {
+					seen[prefix] = true
+					out = append(out, prefix)
+				}
+				return
+			}
+			for i := 0; i < len(alpha); i++ {
+				rec(prefix + string(alpha[i]))
+			}
+		}
+		rec("")
+	}
+	if L >= 3 {
+		// a few structured candidates of any length: zeros, negative, nan/inf padded forms
+		for _, s := range []string{strings.Repeat("0", L), "-" + strings.Repeat("1", L-1), "1e" + strings.Repeat("9", L-2), "." + strings.Repeat("5", L-1), strings.Repeat("7", L)} {
+			if len(s) == L && !seen[s] {
+				seen[s] = true
+				out = append(out, s)
+			}
+		}
+	}
+	pfCandCache[L] = out
+	return out
+}
 
 func (c *Ctx) pfTerms(bs []value) (ok, val *sym.Term) {
 	L := len(bs)
